@@ -486,6 +486,10 @@ func (m *machine) ValidTransition(to *State) error {
 		return newError(fmt.Sprintf("invalid allocation: %v", err))
 	}
 
+	if to.NumParts() != len(m.params.Parts) {
+		return newError(fmt.Sprintf("expected %d participants, got %d", len(m.params.Parts), to.NumParts()))
+	}
+
 	if err := AssertAssetsEqual(m.currentTX.Assets, to.Assets); err != nil {
 		return newError(fmt.Sprintf("unequal assets: %v", err))
 	}
